@@ -60,6 +60,22 @@ def safe_impl(mod, case):
         signal.signal(signal.SIGALRM, old)
 
 
+def safe_oracle(mod, c, obs):
+    """an observation the oracle cannot read (the implementation returned objects of an unexpected shape) is a finding
+    about that case, never a crash of the check"""
+    try:
+        return mod.oracle(c, obs)
+    except Exception as e:      # noqa: BLE001
+        return f"unreadable: the oracle cannot read the observation ({type(e).__name__}: {str(e)[:120]})"
+
+
+def safe_known(mod, c, o, v):
+    try:
+        return mod.known(c, o, v) if hasattr(mod, "known") else None
+    except Exception:       # noqa: BLE001 -- an unreadable observation is attributed to nothing
+        return None
+
+
 def evaluate(mod, cases):
     """run implementation + oracle on every case"""
     out = []
@@ -69,7 +85,7 @@ def evaluate(mod, cases):
             verdict = f"driver exception {obs[1]}: {obs[2]}"
             enc = ["HARNESS-EXC", obs[1]]
         else:
-            verdict = mod.oracle(c, obs)
+            verdict = safe_oracle(mod, c, obs)
             enc = obs
         out.append((c, enc, verdict, obs))
     return out
@@ -117,7 +133,7 @@ def main(argv=None):
             print("replay names a proof/correspondence obligation, no concrete input")
             return 1
         obs = safe_impl(mod, case)
-        v = mod.oracle(case, obs)
+        v = safe_oracle(mod, case, obs)
         print("case:", json.dumps(case))
         print("impl observation:", json.dumps(obs, default=str)[:2000])
         print("oracle:", v or "holds")
@@ -147,10 +163,23 @@ def main(argv=None):
     # ---- 4. correspondence --------------------------------------------------------
     mism, errs = [], []
     model_ok = True
-    modelled = [i for i, (c, enc, v, o) in enumerate(results) if mod.model_term(c) is not None]
+    view = getattr(mod, 'model_view', lambda c, o: o)
+    modelled, pairs = [], []
+    for i, (c, enc, v, o) in enumerate(results):
+        # an observation of an unexpected shape (the implementation returned objects the scenario's rendering does
+        # not know) is a finding about that case, never a crash of the check
+        try:
+            t = mod.model_term(c)
+            if t is None:
+                continue
+            pr = (t, lib.cobs(view(c, o)))
+        except Exception as e:      # noqa: BLE001
+            if v is None:
+                results[i] = (c, enc, f"unrenderable: the observation cannot be rendered for the model ({type(e).__name__}: {str(e)[:120]})", o)
+            continue
+        modelled.append(i)
+        pairs.append(pr)
     if modelled:
-        view = getattr(mod, 'model_view', lambda c, o: o)
-        pairs = [(mod.model_term(results[i][0]), lib.cobs(view(results[i][0], results[i][1]))) for i in modelled]
         bad, errs = lib.model_mismatches(f"{prop}_{os.getpid()}", mod.IMPORTS, pairs, prelude=getattr(mod, "PRELUDE", ""),
                                          shard=getattr(mod, "SHARD", 300), jobs=getattr(mod, "JOBS", 8))
         mism = [modelled[k] for k in bad]
@@ -175,7 +204,7 @@ def main(argv=None):
         if v is None:
             continue
         harness_exc = isinstance(o, list) and bool(o) and o[0] == "HARNESS-EXC"
-        fid = mod.known(c, o, v) if (hasattr(mod, "known") and not harness_exc) else None
+        fid = safe_known(mod, c, o, v) if not harness_exc else None
         if fid is not None and fid in known_active and i not in mism:
             attributed[fid] = attributed.get(fid, 0) + 1
         else:
@@ -202,14 +231,14 @@ def main(argv=None):
 
             def still(c2, sig=sig):
                 o2 = safe_impl(mod, c2)
-                v2 = mod.oracle(c2, o2)
+                v2 = safe_oracle(mod, c2, o2)
                 if v2 is None or v2.split(":")[0] != sig:
                     return False
-                f2 = mod.known(c2, o2, v2) if hasattr(mod, "known") else None
+                f2 = safe_known(mod, c2, o2, v2)
                 return not (f2 is not None and f2 in known_active)
             c_min = shrink(mod, c, still)
             o_min = safe_impl(mod, c_min)
-            report(c_min, o_min, mod.oracle(c_min, o_min) or v, {"original_case": c})
+            report(c_min, o_min, safe_oracle(mod, c_min, o_min) or v, {"original_case": c})
     elif mism or gate_problems:
         # proof or correspondence no longer checks, the oracle holds on everything explored:
         # search harder on the implementation side before giving the weaker verdict
@@ -220,9 +249,9 @@ def main(argv=None):
                 extra_cases += mod.generate(Ctx(prop, "quick", seed + 7919 * k))
         for c in extra_cases:
             o = safe_impl(mod, c)
-            v = None if (isinstance(o, list) and o and o[0] == "HARNESS-EXC") else mod.oracle(c, o)
+            v = None if (isinstance(o, list) and o and o[0] == "HARNESS-EXC") else safe_oracle(mod, c, o)
             if v is not None:
-                fid = mod.known(c, o, v) if hasattr(mod, "known") else None
+                fid = safe_known(mod, c, o, v)
                 if fid is not None and fid in known_active:
                     continue
                 found = (c, o, v)
@@ -230,9 +259,9 @@ def main(argv=None):
         if found:
             c, o, v = found
             sig = v.split(":")[0]
-            c_min = shrink(mod, c, lambda c2: (mod.oracle(c2, safe_impl(mod, c2)) or "").split(":")[0] == sig)
+            c_min = shrink(mod, c, lambda c2: (safe_oracle(mod, c2, safe_impl(mod, c2)) or "").split(":")[0] == sig)
             o_min = safe_impl(mod, c_min)
-            report(c_min, o_min, mod.oracle(c_min, o_min) or v, {"gates": gate_problems})
+            report(c_min, o_min, safe_oracle(mod, c_min, o_min) or v, {"gates": gate_problems})
         else:
             detail = {"property": prop, "case": None, "gates": gate_problems,
                       "why": "a proof obligation or the model/implementation correspondence no longer checks; "
@@ -253,7 +282,7 @@ def main(argv=None):
         still = None
         if w is not None:
             o = safe_impl(mod, w)
-            still = mod.oracle(w, o)
+            still = safe_oracle(mod, w, o)
         if still or attributed.get(fid):
             known_lines.append(f"KNOWN-FINDING: property={prop} {fid}: {e['what']}")
         else:
@@ -264,11 +293,18 @@ def main(argv=None):
     nontrivial_keys = set()
     for c, enc, v, o in results:
         try:
-            if mod.nontrivial(c, o):
+            try:
+                nt = mod.nontrivial(c, o)
+            except Exception:       # noqa: BLE001
+                nt = False
+            if nt:
                 nontrivial_keys.add(json.dumps(mod.key(c) if hasattr(mod, "key") else c, sort_keys=True, default=str))
         except Exception:
             pass
-    dist = mod.distribution(results) if hasattr(mod, "distribution") else {}
+    try:
+        dist = mod.distribution(results) if hasattr(mod, "distribution") else {}
+    except Exception as e:          # noqa: BLE001
+        dist = {"distribution_unavailable": f"{type(e).__name__}: {str(e)[:100]}"}
     samples = [{"case": public(c), "impl": enc} for c, enc, v, o in results[len(corpus):len(corpus) + 3]]
     coverage = {
         "obligations": max(pg["obligations"], 1), "discharged": pg["discharged"],
